@@ -83,6 +83,12 @@ func init() {
 		s = encSpec("enc j2 LZ/HUFFMAN 3blk+tail", 2, 3, 100, -1, "sleep", -1)
 		s.Transform, s.Entropy = "LZ", "HUFFMAN"
 		add(s)
+		// ctx skipBlocks: the raw-copy decision is taken per block, from that block's content only
+		for _, j := range []uint{2, 3} {
+			s = encSpec(fmt.Sprintf("enc j%d skipBlocks, first block has a compressed-format signature", j), j, int(j), 100, -1, "sleep", -1)
+			s.Transform, s.Entropy, s.Skip, s.Magic = "LZ", "HUFFMAN", true, true
+			add(s)
+		}
 		// state-caching exploration (no bound): more tasks and more batches than the sleep-set mode can finish
 		add(encSpec("enc j5 5blk+tail state-caching", 5, 5, 100, -1, "cache", -1))
 		add(encSpec("enc j4 12blk+tail (4 batches) state-caching", 4, 12, 100, -2, "cache", -1))
@@ -129,8 +135,18 @@ func init() {
 						n := k*B + 37
 						for _, h := range []int64{-1, int64(n), int64(n) / 2, int64(n) * 3} {
 							for _, sh := range pick(c, []string{"text"}, []string{"text", "random", "utf8-3"}) {
-								emit(detCase{P: Params{cd[0], cd[1], B, j, 32, h, false}, Shape: sh, Len: n, Reps: 3})
+								emit(detCase{P: Params{cd[0], cd[1], B, j, 32, h, false, false}, Shape: sh, Len: n, Reps: 3})
 							}
+						}
+					}
+				}
+			}
+			// skipBlocks: already-compressed first block followed by compressible ones, and the reverse
+			for _, cd := range [][2]string{{"LZ", "HUFFMAN"}, {"TEXT+UTF+BWT+RANK+ZRLT", "ANS0"}} {
+				for _, j := range []uint{2, 3, 4, 8} {
+					for _, sh := range []string{"zipmagic-text", "mixed", "random"} {
+						for _, nb := range []int{2, int(j), 2*int(j) + 1} {
+							emit(detCase{P: Params{cd[0], cd[1], B, j, 32, -1, false, true}, Shape: sh, Len: nb*B + 100, Reps: 3})
 						}
 					}
 				}
@@ -140,8 +156,8 @@ func init() {
 			for _, cd := range [][2]string{{"ROLZ", "NONE"}, {"TEXT+LZ", "HUFFMAN"}, {"RLT+LZX", "ANS0"}, {"TEXT+UTF+PACK+MM+LZX", "HUFFMAN"}, {"EXE+RLT+TEXT+UTF+DNA", "FPAQ"}, {"DNA+LZ", "HUFFMAN"}, {"LZP+TEXT+UTF+BWT+LZP", "ANS1"}} {
 				for _, j := range []uint{2, 3, 4, 5, 8} {
 					for _, nb := range []int{int(j) + 1, 2*int(j) + 3, 19} {
-						emit(detCase{P: Params{cd[0], cd[1], B, j, 32, -1, false}, Shape: "mixed", Len: nb*B + 100, Reps: 2})
-						emit(detCase{P: Params{cd[0], cd[1], 4 * B, j, 0, int64(4*nb*B + 100), false}, Shape: "mixed", Len: 4*nb*B + 100, Reps: 1})
+						emit(detCase{P: Params{cd[0], cd[1], B, j, 32, -1, false, false}, Shape: "mixed", Len: nb*B + 100, Reps: 2})
+						emit(detCase{P: Params{cd[0], cd[1], 4 * B, j, 0, int64(4*nb*B + 100), false, false}, Shape: "mixed", Len: 4*nb*B + 100, Reps: 1})
 					}
 				}
 			}
@@ -152,7 +168,7 @@ func init() {
 			rec = func(parts []int, sum int) {
 				if sum >= total || len(parts) >= pick(c, 4, 5) {
 					for _, j := range []uint{1, 3} {
-						emit(detCase{P: Params{"LZ", "HUFFMAN", B, j, 32, -1, false}, Shape: "text", Len: total, Parts: append([]int{}, parts...), Reps: 1})
+						emit(detCase{P: Params{"LZ", "HUFFMAN", B, j, 32, -1, false, false}, Shape: "text", Len: total, Parts: append([]int{}, parts...), Reps: 1})
 					}
 					return
 				}
